@@ -440,7 +440,7 @@ def probe_c12(case, cfg):
         lit, exp = override_values(case, v)
         L.append('    { let oc = %s; emit("map", j!({"variant": %d, "map": '
                  'wgpu::verif_constants_json(&oc.constants()), "expected": %s}));' % (
-                     lit, v, json.dumps({k: f64_hex(x) for k, x in exp.items()})))
+                     lit, v, json.dumps({k: f64_hex(x) for k, x in exp.items()}, ensure_ascii=False)))
         for e in spec.entries:
             if e.stage == "vertex":
                 steps = ", ".join("wgpu::VertexStepMode::Vertex"
